@@ -11,6 +11,9 @@ from spec import vocab as V
 SeqInfo = V.SeqRef.info
 
 
+TEng = TRefT(None)
+
+
 class TRowT(smt.TD):
     sort = V.Row
     name = "row"
@@ -71,6 +74,8 @@ def register(reg):
     k.ens("free-columns-are-the-union", lambda c: B(V.fv(c.result.z) == V.fvs(c.operands.z)),
           hints=lambda c: [B(V.fvp(c.operands.z, 0) == smt.EMPTY_TAGS),
                            B(V.fvp(c.operands.z, 1) == z3.SetUnion(V.fvp(c.operands.z, 0), V.fv(SeqInfo.at(c.operands.z, 0))))])
+    k.ens("supported-where-all-operands-are", lambda c: c.forall([(TEng, "eng")], lambda g: B(z3.Implies(V.all_supp(c.operands.z, g.z), V.supp(c.result.z, g.z))),
+                                                                  patterns=lambda g: [V.supp(c.result.z, g.z)]))
     k = reg.contract("_columns._predicate:Predicate.logical_or", properties=P)
     k.ens("denotes-the-disjunction", lambda c: c.forall([(TRow, "rho")], lambda rho: B(V.ev(c.result.z, rho.z) == V.any_ev(c.operands.z, rho.z)),
                                                         patterns=lambda rho: [V.ev(c.result.z, rho.z)]))
@@ -85,16 +90,25 @@ def register(reg):
     k.ens("conjuncts-need-the-same-columns", lambda c: B(z3.Implies(Flat.is_flat_list(c.result.z),
                                                                       V.fvs(Flat.flat_val(c.result.z)) == V.fv(c.predicate.z))))
 
+    k.ens("conjuncts-supported-where-the-predicate-is", lambda c: c.forall(
+        [(TEng, "eng")], lambda g: B(z3.Implies(z3.And(Flat.is_flat_list(c.result.z), V.supp(c.predicate.z, g.z)), V.all_supp(Flat.flat_val(c.result.z), g.z))),
+        patterns=lambda g: [V.all_supp(Flat.flat_val(c.result.z), g.z)]))
+
     def flat_inv(c, i, env, seq):
         rho = c.forall([(TRow, "rho")], lambda rho: rho)  # the memoised ghost row of this verification
         j = z3.Int("j")
         prefix = z3.ForAll([j], z3.Implies(z3.And(0 <= j, j < i.z), V.ev(SeqInfo.at(seq.z, j), rho.z)), patterns=[SeqInfo.at(seq.z, j)])
+        g = c.forall([(TEng, "eng")], lambda g: g)
         return B(z3.And(V.all_ev(env.result.z, rho.z) == prefix,
-                        V.fvs(env.result.z) == V.fvp(seq.z, i.z)))
+                        V.fvs(env.result.z) == V.fvp(seq.z, i.z),
+                        z3.Implies(V.supp(c.predicate.z, g.z), V.all_supp(env.result.z, g.z))))
 
     k.inv(0, flat_inv)
 
     # Selection.__post_init__: the stored predicate is equivalent to the supplied one and needs no new column
     k = reg.contract("_operations._selection:Selection.__post_init__", properties=P, modifies=("predicate",))
     k.ens("stored-predicate-equivalent", lambda c: B(V.pequiv(c.field("predicate").z, c.field("predicate", old=True).z)))
+    k.ens("stored-predicate-supported-where-the-supplied-one-is", lambda c: c.forall(
+        [(TEng, "eng")], lambda g: B(z3.Implies(V.supp(c.field("predicate", old=True).z, g.z), V.supp(c.field("predicate").z, g.z))),
+        patterns=lambda g: [V.supp(c.field("predicate").z, g.z)]))
     k.ens("stored-predicate-needs-no-new-column", lambda c: B(z3.IsSubset(V.fv(c.field("predicate").z), V.fv(c.field("predicate", old=True).z))))
